@@ -1,4 +1,4 @@
-import CalicoVerif.Proofs.C11Comp
+import CalicoVerif.Proofs.C11Log
 /-!
 C11 — rule → policy → tier composition for the events the builder model
 actually produces (`writeRule`, `writePolicyRules`, `writePolicies`,
@@ -37,46 +37,118 @@ def RuleGuarded (env : Env) (st : List Byte) (p : Pkt) (r : Rule) : Prop :=
     Guard env st (.ruleNoMatch rid) (flat (ruleMatches env.c rid fr destLeg)) (ruleMatch env p destLeg fr) ∧
     (∀ l ∈ labelsOf (flat (ruleMatches env.c rid fr destLeg)), l.isPart = true)
 
-/-- What a rule decides. -/
+/-- What a rule decides: a matching rule continues at its action label — except a `log` rule,
+which only sets a flag and falls through. -/
 def ruleTarget (env : Env) (p : Pkt) (destLeg : Leg) (r : Rule) (a : Label) : Option Label :=
   match filterRule env.c.v6 r with
   | none => none
-  | some fr => if ruleMatch env p destLeg fr then some a else none
+  | some fr => if ruleMatch env p destLeg fr then (if a = .log then none else some a) else none
 
-theorem writeRule_flat (c : Cfg) (rid : Nat) (r : Rule) (a : Label) (leg : Leg) (hrec : c.record = false)
-    (ha : a ≠ .log) :
+theorem writeRule_flat (c : Cfg) (rid : Nat) (r : Rule) (a : Label) (leg : Leg) :
     flat (writeRule c rid r a leg).1 =
       match filterRule c.v6 r with
       | none => []
-      | some fr => flat (ruleMatches c rid fr leg) ++ [jump a, .label (.ruleNoMatch rid)] := by
+      | some fr => flat (ruleMatches c rid fr leg) ++ endOfRule c rid r.matchID a := by
   unfold writeRule
   cases filterRule c.v6 r with
   | none => simp [flat]
-  | some fr =>
-    simp only [flat, flat_append, flat_map_ev, endOfRule, if_neg ha, hrec]
-    simp
+  | some fr => simp only [flat, flat_append, flat_map_ev]
 
 theorem writeRule_rid (c : Cfg) (rid : Nat) (r : Rule) (a : Label) (leg : Leg) :
     (writeRule c rid r a leg).2 = match filterRule c.v6 r with | none => rid | some _ => rid + 1 := by
   unfold writeRule
   cases filterRule c.v6 r <;> rfl
 
+/-- A `log` rule: guard, set the flag, fall through. -/
+theorem rule_log_decides {env : Env} {st : List Byte} {L : Label} {M : List Ev} {b : Bool}
+    (hg : Guard env st L M b) : Decides env st (M ++ (logEvs ++ [.label L])) none := by
+  intro rest m hI
+  obtain ⟨m1, hI1, e1⟩ := hg (logEvs ++ [.label L] ++ rest) m hI
+  have hassoc : M ++ (logEvs ++ [.label L]) ++ rest = M ++ (logEvs ++ [.label L] ++ rest) := by
+    simp only [List.append_assoc]
+  rw [hassoc, e1]
+  cases b with
+  | true =>
+    obtain ⟨m2, hI2, e2⟩ := decides_log env st ([.label L] ++ rest) m1 hI1
+    refine ⟨m2, hI2, ?_⟩
+    simp only [if_true, List.append_assoc]
+    rw [e2]
+    simp only [List.cons_append, List.nil_append]
+    rw [lrun_label]
+  | false =>
+    refine ⟨m1, hI1, ?_⟩
+    simp only [Bool.false_eq_true, if_false, List.append_assoc]
+    rw [goto_append _ m1 (by simp [logEvs, labelsOf, load64, orImm64, store64, mk])]
+    simp only [List.cons_append, List.nil_append]
+    rw [goto_label_self]
+
+/-- A rule with rule-hit recording: guard, record (or skip when the table is full), jump. -/
+theorem rule_record_decides {env : Env} {st : List Byte} {L a : Label} {M : List Ev} {b : Bool} (id : Nat)
+    (hg : Guard env st L M b) (ha : a ≠ L) :
+    Decides env st (M ++ (recordRuleID id a ++ [jump a] ++ [.label L])) (if b then some a else none) := by
+  intro rest m hI
+  obtain ⟨m1, hI1, e1⟩ := hg (recordRuleID id a ++ [jump a] ++ [.label L] ++ rest) m hI
+  have hassoc : M ++ (recordRuleID id a ++ [jump a] ++ [.label L]) ++ rest =
+      M ++ (recordRuleID id a ++ [jump a] ++ [.label L] ++ rest) := by simp only [List.append_assoc]
+  rw [hassoc, e1]
+  cases b with
+  | true =>
+    obtain ⟨m2, hI2, e2⟩ := lrun_record env st id a ([jump a] ++ [.label L] ++ rest) m1 hI1
+    refine ⟨m2, hI2, ?_⟩
+    simp only [if_true, List.append_assoc] at e2 ⊢
+    rcases e2 with e2 | e2
+    · rw [e2]
+      simp only [List.cons_append, List.nil_append]
+      rw [lrun_jump, goto_cons_label_ne env rest m2 (fun e => ha e.symm)]
+    · rw [e2]
+      simp only [List.cons_append, List.nil_append]
+      unfold jump mkJ
+      rw [goto_cons_jmp, goto_cons_label_ne env rest m2 (fun e => ha e.symm)]
+  | false =>
+    refine ⟨m1, hI1, ?_⟩
+    simp only [Bool.false_eq_true, if_false, List.append_assoc]
+    rw [goto_append _ m1 (by rw [labelsOf_record]; simp)]
+    simp only [List.cons_append, List.nil_append]
+    unfold jump mkJ
+    rw [goto_cons_jmp, goto_label_self]
+
+theorem endOfRule_eq (c : Cfg) (rid id : Nat) (a : Label) :
+    endOfRule c rid id a =
+      if a = .log then logEvs ++ [.label (.ruleNoMatch rid)]
+      else if c.record then recordRuleID id a ++ [jump a] ++ [.label (.ruleNoMatch rid)]
+      else [jump a, .label (.ruleNoMatch rid)] := by
+  unfold endOfRule logEvs
+  by_cases h1 : a = .log
+  · simp [h1]
+  · by_cases h2 : c.record = true
+    · simp [h1, h2]
+    · simp [h1, h2]
+
 theorem writeRule_decides {env : Env} {st : List Byte} {p : Pkt} (rid : Nat) (r : Rule) (a : Label) (leg : Leg)
-    (hrec : env.c.record = false) (ha : a ≠ .log) (hna : a.isRule = false) (hg : RuleGuarded env st p r) :
+    (hna : a.isRule = false) (hg : RuleGuarded env st p r) :
     Decides env st (flat (writeRule env.c rid r a leg).1) (ruleTarget env p leg r a) := by
-  rw [writeRule_flat env.c rid r a leg hrec ha]
+  rw [writeRule_flat env.c rid r a leg]
   unfold ruleTarget
   cases hf : filterRule env.c.v6 r with
   | none => exact Decides.nil env st
   | some fr =>
     obtain ⟨g, _⟩ := hg fr hf rid leg
-    have : a ≠ .ruleNoMatch rid := by intro e; rw [e] at hna; simp [Label.isRule] at hna
-    exact rule_decides g this
+    have hne : a ≠ .ruleNoMatch rid := by intro e; rw [e] at hna; simp [Label.isRule] at hna
+    simp only [endOfRule_eq]
+    by_cases h1 : a = .log
+    · simp only [h1, if_true]
+      have := rule_log_decides (L := .ruleNoMatch rid) g
+      cases hb : ruleMatch env p leg fr <;> simpa [hb] using this
+    · by_cases h2 : env.c.record = true
+      · simp only [h1, h2, if_false, if_true]
+        exact rule_record_decides r.matchID g hne
+      · simp only [h1, h2, if_false, Bool.false_eq_true]
+        exact rule_decides g hne
 
 theorem writeRule_labels {env : Env} {st : List Byte} {p : Pkt} (rid : Nat) (r : Rule) (a : Label) (leg : Leg)
-    (hrec : env.c.record = false) (ha : a ≠ .log) (hg : RuleGuarded env st p r) :
+    (hg : RuleGuarded env st p r) :
     ∀ l ∈ labelsOf (flat (writeRule env.c rid r a leg).1), l.isRule = true := by
-  rw [writeRule_flat env.c rid r a leg hrec ha]
+  rw [writeRule_flat env.c rid r a leg]
   cases hf : filterRule env.c.v6 r with
   | none => intro l hl; simp [labelsOf] at hl
   | some fr =>
@@ -86,8 +158,15 @@ theorem writeRule_labels {env : Env} {st : List Byte} {p : Pkt} (rid : Nat) (r :
     rcases hmem with h | h
     · have := hl l h
       cases l <;> simp_all [Label.isPart, Label.isRule]
-    · simp [jump, mkJ, labelsOf] at h
-      subst h; rfl
+    · rw [endOfRule_eq] at h
+      by_cases h1 : a = .log
+      · simp [h1, logEvs, labelsOf, labelsOf_append, load64, orImm64, store64, mk] at h
+        subst h; rfl
+      · by_cases h2 : env.c.record = true
+        · simp [h1, h2, labelsOf_append, labelsOf_record, labelsOf, jump, mkJ] at h
+          subst h; rfl
+        · simp [h1, h2, labelsOf, jump, mkJ] at h
+          subst h; rfl
 
 /-- First non-fall-through target of a rule list, as the builder orders it. -/
 def rulesTarget (env : Env) (p : Pkt) (leg : Leg) (lab : String → Label) : List Rule → Option Label
@@ -95,10 +174,9 @@ def rulesTarget (env : Env) (p : Pkt) (leg : Leg) (lab : String → Label) : Lis
   | r :: rs =>
     (ruleTarget env p leg r (lab r.action)).or (rulesTarget env p leg lab rs)
 
-theorem writePolicyRules_decides {env : Env} {st : List Byte} {p : Pkt} (lab : String → Label) (leg : Leg)
-    (hrec : env.c.record = false) :
+theorem writePolicyRules_decides {env : Env} {st : List Byte} {p : Pkt} (lab : String → Label) (leg : Leg) :
     ∀ (rs : List Rule) (rid : Nat),
-      (∀ r ∈ rs, lab r.action ≠ .log ∧ (lab r.action).isRule = false ∧ RuleGuarded env st p r) →
+      (∀ r ∈ rs, (lab r.action).isRule = false ∧ RuleGuarded env st p r) →
       Decides env st (flat (writePolicyRules env.c lab leg rs rid).1) (rulesTarget env p leg lab rs) ∧
       (∀ l ∈ labelsOf (flat (writePolicyRules env.c lab leg rs rid).1), l.isRule = true) := by
   intro rs
@@ -106,11 +184,11 @@ theorem writePolicyRules_decides {env : Env} {st : List Byte} {p : Pkt} (lab : S
   | nil => intro rid _; exact ⟨Decides.nil env st, by intro l hl; simp [writePolicyRules, flat, labelsOf] at hl⟩
   | cons r rs ih =>
     intro rid h
-    obtain ⟨h1, h2, h3⟩ := h r (List.mem_cons_self)
+    obtain ⟨h2, h3⟩ := h r (List.mem_cons_self)
     have hrest := ih (writeRule env.c rid r (lab r.action) leg).2 (fun r' hr' => h r' (List.mem_cons_of_mem _ hr'))
     simp only [writePolicyRules, flat_append]
-    have hd := writeRule_decides (env := env) (st := st) (p := p) rid r (lab r.action) leg hrec h1 h2 h3
-    have hlab := writeRule_labels (env := env) (st := st) (p := p) rid r (lab r.action) leg hrec h1 h3
+    have hd := writeRule_decides (env := env) (st := st) (p := p) rid r (lab r.action) leg h2 h3
+    have hlab := writeRule_labels (env := env) (st := st) (p := p) rid r (lab r.action) leg h3
     refine ⟨?_, ?_⟩
     · have := Decides.seq hd hrest.1 (by
         intro l hl hmem
@@ -119,7 +197,9 @@ theorem writePolicyRules_decides {env : Env} {st : List Byte} {p : Pkt} (lab : S
         split at hl
         · cases hl
         · split at hl
-          · cases hl; rw [h2] at hr; cases hr
+          · split at hl
+            · cases hl
+            · cases hl; rw [h2] at hr; cases hr
           · cases hl)
       simpa only [rulesTarget] using this
     · intro l hmem
@@ -132,9 +212,9 @@ def policiesTarget (env : Env) (p : Pkt) (leg : Leg) (lab : String → Label) : 
   | [] => none
   | pol :: ps => (rulesTarget env p leg lab pol.rules).or (policiesTarget env p leg lab ps)
 
-/-- Every rule of the policies has a real (non-log) action label and a guarded match part. -/
+/-- Every rule of the policies has a non-rule action label and a guarded match part. -/
 def PoliciesOK (env : Env) (st : List Byte) (p : Pkt) (lab : String → Label) (ps : List Policy) : Prop :=
-  ∀ pol ∈ ps, ∀ r ∈ pol.rules, lab r.action ≠ .log ∧ (lab r.action).isRule = false ∧ RuleGuarded env st p r
+  ∀ pol ∈ ps, ∀ r ∈ pol.rules, (lab r.action).isRule = false ∧ RuleGuarded env st p r
 
 theorem rulesTarget_not_rule {env : Env} {p : Pkt} {leg : Leg} {lab : String → Label} :
     ∀ (rs : List Rule), (∀ r ∈ rs, (lab r.action).isRule = false) →
@@ -152,14 +232,15 @@ theorem rulesTarget_not_rule {env : Env} {p : Pkt} {leg : Leg} {lab : String →
       split at ht
       · cases ht
       · split at ht
-        · cases ht; exact h r (List.mem_cons_self)
+        · split at ht
+          · cases ht
+          · cases ht; exact h r (List.mem_cons_self)
         · cases ht
     | none =>
       simp [ht] at hl
       exact ih (fun r' hr' => h r' (List.mem_cons_of_mem _ hr')) l hl
 
-theorem writePolicies_decides {env : Env} {st : List Byte} {p : Pkt} (lab : String → Label) (leg : Leg)
-    (hrec : env.c.record = false) :
+theorem writePolicies_decides {env : Env} {st : List Byte} {p : Pkt} (lab : String → Label) (leg : Leg) :
     ∀ (ps : List Policy) (rid : Nat), PoliciesOK env st p lab ps →
       Decides env st (flat (writePolicies env.c lab leg ps rid).1) (policiesTarget env p leg lab ps) ∧
       (∀ l ∈ labelsOf (flat (writePolicies env.c lab leg ps rid).1), l.isRule = true) := by
@@ -168,7 +249,7 @@ theorem writePolicies_decides {env : Env} {st : List Byte} {p : Pkt} (lab : Stri
   | nil => intro rid _; exact ⟨Decides.nil env st, by intro l hl; simp [writePolicies, flat, labelsOf] at hl⟩
   | cons pol ps ih =>
     intro rid h
-    have h1 := writePolicyRules_decides (env := env) (st := st) (p := p) lab leg hrec pol.rules rid
+    have h1 := writePolicyRules_decides (env := env) (st := st) (p := p) lab leg pol.rules rid
       (fun r hr => h pol (List.mem_cons_self) r hr)
     have hrest := ih (writePolicyRules env.c lab leg pol.rules rid).2
       (fun pol' hp' => h pol' (List.mem_cons_of_mem _ hp'))
@@ -178,7 +259,7 @@ theorem writePolicies_decides {env : Env} {st : List Byte} {p : Pkt} (lab : Stri
         intro l hl hmem
         have hr := hrest.2 l hmem
         have := rulesTarget_not_rule (env := env) (p := p) (leg := leg) (lab := lab) pol.rules
-          (fun r hr => (h pol (List.mem_cons_self) r hr).2.1) l hl
+          (fun r hr => (h pol (List.mem_cons_self) r hr).1) l hl
         rw [this] at hr; cases hr)
       simpa only [policiesTarget] using this
     · intro l hmem
@@ -219,7 +300,9 @@ theorem rulesTarget_range {env : Env} {p : Pkt} {leg : Leg} {lab : String → La
       split at ht
       · cases ht
       · split at ht
-        · cases ht; exact ⟨r.action, rfl⟩
+        · split at ht
+          · cases ht
+          · cases ht; exact ⟨r.action, rfl⟩
         · cases ht
     | none => simp [ht] at hl; exact ih l hl
 
@@ -285,7 +368,7 @@ theorem tierEndLabel_props (t : Tier) (tid : Nat) :
   unfold tierEndLabel; cases t.endAction <;> simp [Label.isRule]
 
 theorem writeTiers_decides {env : Env} {st : List Byte} {p : Pkt} (leg : Leg) (allowLabel : Label)
-    (hrec : env.c.record = false) (hal : allowLabel.isRule = false) (hat : allowLabel.isTierEnd = false) :
+    (hal : allowLabel.isRule = false) (hat : allowLabel.isTierEnd = false) :
     ∀ (ts : List Tier) (rid tid : Nat), TiersOK env st p allowLabel ts →
       Decides env st (flat (writeTiers env.c leg allowLabel ts rid tid).1) (tiersTarget env p leg allowLabel ts tid) ∧
       (∀ l ∈ labelsOf (flat (writeTiers env.c leg allowLabel ts rid tid).1), l.isRule = true ∨ l.isTierEnd = true) := by
@@ -295,27 +378,27 @@ theorem writeTiers_decides {env : Env} {st : List Byte} {p : Pkt} (leg : Leg) (a
   | cons t ts ih =>
     intro rid tid h
     have hpol := h t (List.mem_cons_self) tid
-    have hP := writePolicies_decides (env := env) (st := st) (p := p) (tierActionLabel allowLabel tid) leg hrec
+    have hP := writePolicies_decides (env := env) (st := st) (p := p) (tierActionLabel allowLabel tid) leg
       t.policies rid hpol
     obtain ⟨hel, her⟩ := tierEndLabel_props t tid
     -- the end-of-tier rule
     have hE := writeRule_decides (env := env) (st := st) (p := p)
       (writePolicies env.c (tierActionLabel allowLabel tid) leg t.policies rid).2
-      { action := "", matchID := t.endRuleID } (tierEndLabel t tid) leg hrec hel her
+      { action := "", matchID := t.endRuleID } (tierEndLabel t tid) leg her
       (emptyRule_guarded env st p t.endRuleID)
     have hElab := writeRule_labels (env := env) (st := st) (p := p)
       (writePolicies env.c (tierActionLabel allowLabel tid) leg t.policies rid).2
-      { action := "", matchID := t.endRuleID } (tierEndLabel t tid) leg hrec hel
+      { action := "", matchID := t.endRuleID } (tierEndLabel t tid) leg
       (emptyRule_guarded env st p t.endRuleID)
     have hEt : ruleTarget env p leg { action := "", matchID := t.endRuleID } (tierEndLabel t tid) =
         some (tierEndLabel t tid) := by
-      simp [ruleTarget, filterRule, filterNets, ruleMatch, icmpIs]
+      simp [ruleTarget, filterRule, filterNets, ruleMatch, icmpIs, hel]
     rw [hEt] at hE
     have hPE := Decides.seq hP.1 hE (by
       intro l hl hmem
       have hr := hElab l hmem
       have := policiesTarget_not_rule (env := env) (p := p) (leg := leg) t.policies
-        (fun pol hp r hr => (hpol pol hp r hr).2.1) l hl
+        (fun pol hp r hr => (hpol pol hp r hr).1) l hl
       rw [this] at hr; cases hr)
     have hPEL := Decides.label (.endOfTier tid) hPE
     have hrest := ih
@@ -352,7 +435,7 @@ theorem writeTiers_decides {env : Env} {st : List Byte} {p : Pkt} (leg : Leg) (a
             cases hea : t.endAction <;> simp [hea, Label.isRule, Label.isTierEnd] at hr hl hne
             exact hne hl
           · have hnr := policiesTarget_not_rule (env := env) (p := p) (leg := leg) t.policies
-              (fun pol hp r hr => (hpol pol hp r hr).2.1) l hc
+              (fun pol hp r hr => (hpol pol hp r hr).1) l hc
             rw [hnr] at hr
             simp only [Bool.false_eq_true, false_or] at hr
             obtain ⟨a, ha⟩ := policiesTarget_range t.policies l hc
